@@ -14,7 +14,7 @@ FILES = {
  'otp/twofactor/totp2fa/totp.go': 'C02 C12 C13 C18', 'otp/twofactor/sms2fa/sms.go': 'C02 C12 C13 C18',
  'otp/twofactor/twofactor_verify.go': 'C13', 'otp/twofactor/twofactor_recover.go': 'C13 C12 C02',
  'oauth2/oauth2.go': 'C14 C15 C07 C01 C18', 'logout/logout.go': 'C10 C18', 'expire/expire.go': 'C09',
- 'register/register.go': 'C19 C18 C01', 'defaults/values.go': 'C19', 'defaults/rules.go': 'C19',
+ 'register/register.go': 'C19 C18 C01', 'defaults/values.go': 'C19 C07', 'defaults/rules.go': 'C19',
  'defaults/responder.go': 'C15 C16', 'defaults/router.go': 'C20 C10', 'client_state.go': 'C11 C10 C08 C09',
  'authboss.go': 'C08 C06 C01', 'user.go': 'C14', 'response.go': 'C17 C20', 'events.go': 'C03 C18',
 }
